@@ -536,7 +536,7 @@ func eofWitness(c *core.Ctx) {
 		if st, ok := recvT.Underlying().(*types.Struct); ok {
 			emb := false
 			for i := 0; i < st.NumFields(); i++ {
-				if st.Field(i).Embedded() {
+				if st.Field(i).Embedded() && types.IsInterface(st.Field(i).Type()) {
 					emb = true
 				}
 			}
